@@ -14,11 +14,15 @@ import langpipe
 import printer
 import vlib
 
+# a local variable that an open closure reads and assigns, next to reads and assignments of the body itself:
+# operands and arguments are evaluated left to right, a value read before a call is not affected by the call
+CLO = {"Template": '"clo"', "Lits": "{2}", "Ops": '{"+", "*"}', "Helpers": "{}", "Prods": '{"app", "asg", "let"}'}
 SHADOW = {"Template": '"f"', "Lits": "{1}", "Ops": '{"+"}', "Helpers": "{}", "Prods": '{"let", "letsh", "asg", "now", "if"}'}
 JOBS = {
     "quick": [
         # lets that bind a name of an enclosing scope again (lexical scope of nested blocks)
         ("shadow5", dict(SHADOW, Budget=5)),
+        ("clo7", dict(CLO, Budget=7)),
         ("f4", {"Template": '"f"', "Budget": 4}),
         ("dsp4in", {"Template": '"dsp"', "UseInput": "TRUE", "Budget": 4}),
         # stateful constructs inside if arms (every arm owns its cells)
@@ -28,6 +32,7 @@ JOBS = {
     ],
     "thorough": [
         ("shadow6", dict(SHADOW, Budget=6)),
+        ("clo8", dict(CLO, Budget=8)),
         ("ifstate6", {"Template": '"f"', "Budget": 6, "Lits": "{1}", "Ops": '{"+"}',
                       "Helpers": '{"counter", "lag", "pacc", "dl", "nest"}',
                       "Prods": '{"now", "if", "mem", "delay", "ifp", "proj", "tup"}'}),
@@ -66,6 +71,9 @@ def run(tier):
     nprog = 0
     for label, consts in ([] if os.environ.get("C02_ONLY") == "random" else JOBS[tier]):
         reps = langpipe.generate(chk, label, consts, timeout=3000)
+        if label.startswith("clo"):
+            # the programs that call the closure (the others are plain arithmetic, covered by the other jobs)
+            reps = [r for r in reps if "bump(" in printer.program(r["prog"]).split("}\n", 1)[1]]
         live = [(i, r) for i, r in enumerate(reps) if not r["oom"]]
         chk.count("out_of_model_programs", len(reps) - len(live))
         reqs = [langpipe.to_request(i, r) for i, r in live]
